@@ -36,7 +36,8 @@ class C02(core.Check):
                                        'align:from-aligned', 'align:from-unaligned', 'align:default-page',
                                        'align:explicit-page', 'align:non-power-of-2', 'muted-line', 'excluded-line',
                                        'const-from-const', 'label-before:instr', 'label-before:data', 'label-before:fill',
-                                       'label-at-end', 'zerountil:behind-by-2+', 'zerountil:adjacent', 'zerountil:ahead']}
+                                       'label-at-end', 'zerountil:behind-by-2+', 'zerountil:adjacent', 'zerountil:ahead',
+                                       'global-redefined', 'global-redefined+origin-above-start']}
 
     def make_case(self, g, rng, extra_tags=()):
         isa = g.isa
